@@ -198,6 +198,9 @@ func evalConc(args []string) string {
 	if line == "" {
 		return fmt.Sprintf("ORACLE-FAIL:child-no-result:%s:exit%d", sc.name, code)
 	}
+	if line == "bad-op" { // a sibling built from an older harness
+		return "ORACLE-FAIL:race-binary-lacks-concrun"
+	}
 	if line == "hang" || line == "panic" {
 		return "ORACLE-FAIL:" + line + ":" + sc.name
 	}
@@ -1866,6 +1869,9 @@ func genC20(r *rng, tier string, emit func(string)) {
 		}
 		if name == "tlsconfig" && n/g < 2 {
 			return 2 // a second connection per goroutine: the session cache and the tickets get used
+		}
+		if g <= 2 {
+			n = n * 2 / 3 // with two goroutines the concurrent pass takes about as long as the sequential one
 		}
 		if n/g < 1 {
 			return 1
